@@ -35,6 +35,11 @@ type Case struct {
 	// Birth: how the connection came to the engine: "" = AddConn of an established socket, "dial" = DialAsync
 	// (tcp; the origin "onopen" then means: inside the dial callback)
 	Birth string `json:"birth,omitempty"`
+	// ChatterEvery: the peer sends one byte after every n-th read while it drains (0 = it only reads), so that
+	// readability and writability of the connection change at the same time; OnDataHoldUs: the data callback
+	// takes this long (the poller is busy and harvests both changes in one event afterwards)
+	ChatterEvery int `json:"peer_chatter_every,omitempty"`
+	OnDataHoldUs int `json:"ondata_hold_us,omitempty"`
 }
 
 const window = 4 * time.Second
@@ -194,6 +199,9 @@ func runCase(c Case) vlib.Result {
 		if c.Origin == "ondata" && conn == target.Load() {
 			doWrites(conn)
 		}
+		if c.OnDataHoldUs > 0 && conn == target.Load() {
+			time.Sleep(time.Duration(c.OnDataHoldUs) * time.Microsecond)
+		}
 	})
 	var closeErr atomic.Value
 	g.OnClose(func(conn *nbio.Conn, err error) {
@@ -265,6 +273,10 @@ func runCase(c Case) vlib.Result {
 	received := int64(0)
 	last := time.Now()
 	lastAccepted := int64(0)
+	reads := 0
+	if c.ChatterEvery > 0 {
+		res.Classes = append(res.Classes, "peer sends while it drains")
+	}
 	for received < int64(total) {
 		if a := atomic.LoadInt64(&accepted); a != lastAccepted {
 			// the no-progress window counts from the moment there is something (more) to deliver
@@ -282,6 +294,11 @@ func runCase(c Case) vlib.Result {
 			}
 			received += int64(n)
 			last = time.Now()
+			reads++
+			if c.ChatterEvery > 0 && reads%c.ChatterEvery == 0 {
+				_ = peer.SetWriteDeadline(time.Now().Add(50 * time.Millisecond))
+				_, _ = peer.Write([]byte{'x'})
+			}
 		}
 		if err != nil {
 			if ne, ok := err.(net.Error); ok && ne.Timeout() {
@@ -396,6 +413,13 @@ func gen(t *rapid.T) Case {
 	}
 	if total/c.ReadChunk > 20000 {
 		c.ReadChunk = 65536
+	}
+	if rapid.IntRange(0, 2).Draw(t, "chatter") == 0 {
+		c.ChatterEvery = rapid.SampledFrom([]int{1, 1, 4}).Draw(t, "chatterevery")
+		c.OnDataHoldUs = rapid.SampledFrom([]int{0, 200, 2000}).Draw(t, "ondatahold")
+		if total/c.ReadChunk/c.ChatterEvery*c.OnDataHoldUs > 2000000 {
+			c.OnDataHoldUs = 0
+		}
 	}
 	return c
 }
